@@ -53,6 +53,10 @@ claimed = {
    text="2-4 real controllers with an empty database start with seeded delays against fan plants of differing settle times; the seeded scheduler decides every interleaving of their file operations; analysis intervals on the kernel's event sequence must be pairwise disjoint when the option is false (overlap is demonstrably observable in the control group with the option true). The lock hook parks a goroutine until the kernel observes the real mutex free (TryLock probe) and provides no exclusion itself, so removing or narrowing the real lock stays visible.",
    note=L1NOTE+"An analysis is delimited by its first and last file operation issued from the PWM sweep or the initialisation sequence.",
    tech="deterministic simulation: seeded schedule search over concurrent initialisation sequences, interval-disjointness oracle"),
+ "C03": dict(cat="exploration", ref="§3/C03",
+   text="One OS process per run executes the real program (cobra root command -> YAML -> Validate -> RunDaemon actor group) in a bubble; 1-3 termination signals are injected with os/signal's delivery semantics at seeded instants across all controller phases (start-up wait, analysis, first-second delay, between ticks, inside a cycle by decision index, same instant, after the Nth restore write) while restore-phase mode/PWM writes fail, are refused or silently ignored; after the process ended the driver files must satisfy (mode==original and original!=1) or PWM==255, the exit must be orderly and timely. Evidence, not proof.",
+   note="Trusted: the signal-delivery model of the hook (non-blocking send per registered channel; panic on a closed registered channel halts the world as the real process death would), the driver model, the parent's reading of final files. Unsatisfiable fault plans (every attempted write of 255 made to fail) are not judged.",
+   tech="deterministic simulation of the whole daemon process with signal/fault injection at seeded schedule points; final-state oracle"),
 }
 checks = []
 for p in props:
